@@ -491,6 +491,8 @@ class Canon:
                                 and not any(isinstance(y, (ast.Call, ast.Lambda, ast.Starred)) for y in ast.walk(st.value)):
                             tabs[(owner, st.targets[0].id)] = st.value
             self._tables[key] = tabs
+        if f.cls is not None:
+            node = self._with_class_tables(f, node)
         dtabs = self._dict_tables.get(key) if hasattr(self, "_dict_tables") else None
         if dtabs is None:
             if not hasattr(self, "_dict_tables"):
@@ -554,6 +556,62 @@ class Canon:
                 if lit is not None:
                     lp.iter = copy.deepcopy(lit)
         return node
+
+    def _with_class_tables(self, f, node):
+        """`self.NAME[<literal key>]` / `for row in self.NAME` with NAME a class-level literal (dict of constants or tuples of constants, tuple of rows) that is defined
+        in exactly one class of the whole program and never stored to through an attribute: no subclass can have overridden it (unlike `_AXES`), so the literal is
+        written in place"""
+        if not hasattr(self, "_class_tables"):
+            defs, attr_stores = {}, set()
+            for m in self.p.modules.values():
+                tree = getattr(m, "tree", None)
+                if tree is None:
+                    continue
+                for c in ast.walk(tree):
+                    if isinstance(c, ast.ClassDef):
+                        for st in c.body:
+                            if isinstance(st, ast.Assign) and len(st.targets) == 1 and isinstance(st.targets[0], ast.Name):
+                                defs.setdefault(st.targets[0].id, []).append(st.value)
+                    elif isinstance(c, ast.Attribute) and isinstance(c.ctx, (ast.Store, ast.Del)):
+                        attr_stores.add(c.attr)
+
+            def const(v):
+                return isinstance(v, ast.Constant) or (isinstance(v, ast.UnaryOp) and isinstance(v.operand, ast.Constant)) or (isinstance(v, ast.Tuple) and all(const(e) for e in v.elts))
+
+            self._class_tables = {}
+            for name, vals in defs.items():
+                if len(vals) != 1 or name in attr_stores:
+                    continue
+                v = vals[0]
+                if isinstance(v, ast.Dict) and 1 <= len(v.keys) <= 12 and all(isinstance(k, ast.Constant) for k in v.keys) and all(const(x) for x in v.values):
+                    self._class_tables[name] = ("dict", {k.value: x for k, x in zip(v.keys, v.values)})
+                elif isinstance(v, (ast.Tuple, ast.List)) and 1 <= len(v.elts) <= 8 and all(const(x) for x in v.elts):
+                    self._class_tables[name] = ("rows", v)
+        tabs = self._class_tables
+        if not tabs:
+            return node
+
+        def table_of(e):
+            if isinstance(e, ast.Attribute) and isinstance(e.value, ast.Name) and e.value.id in ("self", "cls") and e.attr in tabs:
+                return tabs[e.attr]
+            return None
+
+        class D(ast.NodeTransformer):
+            def visit_Subscript(self, n):
+                self.generic_visit(n)
+                t = table_of(n.value)
+                if isinstance(n.ctx, ast.Load) and t is not None and t[0] == "dict" and isinstance(n.slice, ast.Constant) and n.slice.value in t[1]:
+                    return ast.copy_location(copy.deepcopy(t[1][n.slice.value]), n)
+                return n
+
+            def visit_For(self, n):
+                self.generic_visit(n)
+                t = table_of(n.iter)
+                if t is not None and t[0] == "rows":
+                    n.iter = copy.deepcopy(t[1])
+                return n
+
+        return D().visit(node)
 
     # -------------------------------------------------------------------------------------------------------- inlining
     def _prepared(self, h, depth):
@@ -1880,8 +1938,16 @@ class _Small(ast.NodeTransformer):
         rows = []
         for e in elts:
             vals = [e] if isinstance(tg, ast.Name) else (list(e.elts) if isinstance(e, ast.Tuple) and len(e.elts) == len(names) else None)
-            if vals is None or not all(isinstance(v, (ast.Constant, ast.Name)) or (_is_pure(v) and not any(isinstance(x, (ast.Call, ast.Lambda)) for x in ast.walk(v))) for v in vals):
+            simple_ = vals is not None and all(isinstance(v, (ast.Constant, ast.Name)) or (_is_pure(v) and not any(isinstance(x, (ast.Call, ast.Lambda)) for x in ast.walk(v))) for v in vals)
+            if vals is None:
                 return None
+            if not simple_:
+                # values with calls are allowed in the *first* row only (they are evaluated first either way), each loop variable holding one being used once in the body
+                if rows or any(isinstance(x, (ast.Lambda, ast.Starred, ast.Yield, ast.Await)) for v in vals for x in ast.walk(v)):
+                    return None
+                for nm_, v in zip(names, vals):
+                    if not isinstance(v, (ast.Constant, ast.Name)) and sum(1 for b in n.body for x in ast.walk(b) if isinstance(x, ast.Name) and x.id == nm_ and isinstance(x.ctx, ast.Load)) > 1:
+                        return None
             rows.append(vals)
         body = list(n.body)
         chain = False
